@@ -132,6 +132,23 @@ impl Chan {
                "woken": self.wakers.woken_since(&before)})
     }
 
+    /// end of a run: the remaining senders, then the receiver, are dropped; a panic of the code under test in a
+    /// destructor is data like any other panic
+    fn teardown(&mut self) -> Value {
+        let r = catch(|| {
+            let sids: Vec<i64> = self.senders.keys().cloned().collect();
+            for sid in sids {
+                drop(self.senders.remove(&sid));
+            }
+            drop(self.rx.take());
+        });
+        let res = match r {
+            Ok(()) => String::new(),
+            Err(msg) => format!("panic: {msg}"),
+        };
+        json!({"ev": "teardown", "sid": 0, "w": 0, "res": res, "val": 0, "woken": []})
+    }
+
     fn random_op(&self, rng: &mut Rng) -> (String, i64, i64) {
         loop {
             let k = rng.below(9);
@@ -324,6 +341,10 @@ fn main() {
                         trace.emit(&obs);
                         steps += 1;
                     }
+                    let mut obs = ch.teardown();
+                    obs["run"] = json!(run);
+                    trace.emit(&obs);
+                    std::mem::forget(ch);
                     runs += 1;
                 }
             }
@@ -341,6 +362,13 @@ fn main() {
                         mismatches.push(json!({"run": run, "step": k, "expected": exp, "observed": obs}));
                     }
                 }
+                let mut obs = ch.teardown();
+                obs["run"] = json!(run);
+                if !bad && obs["res"] != "" {
+                    mismatches.push(json!({"run": run, "step": sch.as_array().unwrap().len(), "expected": {"op": "teardown", "res": ""}, "observed": obs}));
+                }
+                trace.emit(&obs);
+                std::mem::forget(ch);
                 runs += 1;
             }
         }
